@@ -312,7 +312,19 @@ def bounded(chk):
     chk.samples.append({"bounded-case": {"pos": [1.0, 2.0, 2.0], "neg": [2.0], "easy": [2, 3], "config": ["neg", "pos"], "thresholds": "19 values: each score, +-1ulp, midpoints, +-inf"}})
 
 
+def crosscheck(chk):
+    """engine vs CPython on concrete inputs (DESIGN 7.2): cm and the rate methods"""
+    from vf.crosscheck import run_crosscheck
+    cases = []
+    for pos, neg in list(B.order_types(3))[: (30 if chk.tier == "quick" else 200)]:
+        for sc, ec in B.CONFIGS:
+            for t in (0.5, 1.0, 2.0, 2.5):
+                cases.append({"pos": pos, "neg": neg, "ep": 1, "en": 2, "sc": sc, "ec": ec, "args": [t]})
+    run_crosscheck(chk, [(m, {}, cases[k::4], 1e-12) for m in ("cm", "tpr", "fpr", "topr") for k in range(4)])
+
+
 def run(chk):
     prove(chk, build, ground_sizes=[(0, 0), (1, 0), (0, 1), (1, 1), (2, 1), (1, 2)], replay=replay)
     bounded(chk)
+    crosscheck(chk)
     chk.extra["explanation"] = "cell-by-cell post-condition of Scores.cm, Scores.__init__ and pointwise_cm discharged by z3 for arrays of unbounded symbolic length; bounded exhaustive enumeration as stand-in for float order types and for the pointwise-sum lemma"
